@@ -42,15 +42,25 @@ func verifStubNewKeccakState() crypto.KeccakState { return verifKeccakState{} }
 // rlp.EncodeToBytes is reached only for the snapshot-layer copy of a storage value (a byte string
 // of at most 32 bytes; unused here because snaps == nil); the reflective encoder is not modelled.
 func verifStubRlpEncode(val interface{}) ([]byte, error) {
+	if sa, ok := val.(types.SlimAccount); ok {
+		// slim account record of the snapshot layer: a token standing for the (possibly symbolic) fields
+		verifSlims = append(verifSlims, sa)
+		return []byte{0xF5, byte(len(verifSlims) - 1)}, nil
+	}
 	b, ok := val.([]byte)
 	if !ok || len(b) > 55 {
-		panic("verif: rlp.EncodeToBytes stub only handles short byte strings")
+		panic("verif: rlp.EncodeToBytes stub only handles short byte strings and slim accounts")
 	}
 	if len(b) == 1 && b[0] < 0x80 {
 		return []byte{b[0]}, nil
 	}
 	return append([]byte{0x80 + byte(len(b))}, b...), nil
 }
+
+var verifSlims []types.SlimAccount
+
+// crypto.HashData (Keccak through a reusable hasher).
+func verifStubHashData(_ crypto.KeccakState, data []byte) cmn.Hash { return verifStubKeccak256Hash(data) }
 
 // ---- model of the trie / node database behind state.Database --------------------------------
 //
